@@ -431,7 +431,7 @@ func c19Inheritance(p *Prog, r *Report) {
 			continue
 		}
 		ok := false
-		for _, e := range f.evs {
+		for _, e := range f.All() {
 			if e.Kind == "call" && strings.HasSuffix(e.What, ".SetOption") && len(e.Args) >= 3 && e.Args[1] == `"MAX-RCV-SIZE"` && strings.HasSuffix(e.Args[2], "maxRxSize") {
 				ok = true
 			}
